@@ -252,6 +252,18 @@ PROPS["C02"] = {
     "assumptions": H3C_ASSUME,
 }
 
+PROPS["C07"] = {
+    "engine": "h3",
+    "level": "exploration",
+    "budget": {"quick": 45, "thorough": 600},
+    "runs_per_proc": 40,
+    "technique": "deterministic simulation of one real server as controller of a partition whose 2-5 replicas exist only in the metadata: the harness issues leader reports from in-sync followers, out-of-sync replicas, the leader itself and strangers, ISR shrinks/expansions with current or stale (leader, epoch) pairs, sleeps placed just before/after the failover timeout on the fake clock, and controller leadership losses; after every operation the partition state is judged against a reference of the statement's rules",
+    "level_text": "seeded exploration of report/ISR-change histories around the witness timer; oracle: leader in ISR, ISR subset of replicas, epochs never decrease, one leader per leader epoch, a leader change only as the result of a report, to a member of the in-sync set other than the reported leader, with a new epoch, and only when more than half of the in-sync followers reported that (leader, epoch) in a chain of reports each within the timeout of the next; requests naming a stale leader or epoch are refused and change nothing",
+    "level_note": "the witness window is judged by the implementation's documented sliding rule (each report re-arms the timer); reports made before a controller leadership loss do not count afterwards",
+    "rule": "programs of 8-37 (thorough -97) operations; distinct = distinct event-log hash; non-trivial = >=2 accepted reports",
+    "assumptions": H3_ASSUME,
+}
+
 NOT_APPLICABLE = [
     {"property_id": pid, "reason": "check not built yet in this round (engine under construction); see DESIGN.md section 9 build order"}
     for pid in ["C%02d" % i for i in range(1, 20)] if pid not in PROPS
